@@ -631,6 +631,29 @@ int main(int argc, char** argv)
       case KQ: V<TQ>(k, v).clear(); break;
       }
     }
+    else if((IS("removefront", 1) || IS("removeback", 1)))
+    {
+      bool front = op[6] == 'f';
+      usize n = 0;
+      switch(k)
+      {
+      case KA: n = V<TA>(k, v).size(); break; case KL: n = V<TL>(k, v).size(); break; case KM: n = V<TM>(k, v).size(); break;
+      case KU: n = V<TU>(k, v).size(); break; case KH: n = V<TH>(k, v).size(); break; case KS: n = V<TS>(k, v).size(); break;
+      case KP: n = V<TP>(k, v).size(); break; case KQ: n = V<TQ>(k, v).size(); break;
+      }
+      NEED(n > 0);
+      switch(k)
+      {
+      case KA: if(front) V<TA>(k, v).removeFront(); else V<TA>(k, v).removeBack(); break;
+      case KL: if(front) V<TL>(k, v).removeFront(); else V<TL>(k, v).removeBack(); break;
+      case KM: if(front) V<TM>(k, v).removeFront(); else V<TM>(k, v).removeBack(); break;
+      case KU: if(front) V<TU>(k, v).removeFront(); else V<TU>(k, v).removeBack(); break;
+      case KH: if(front) V<TH>(k, v).removeFront(); else V<TH>(k, v).removeBack(); break;
+      case KS: if(front) V<TS>(k, v).removeFront(); else V<TS>(k, v).removeBack(); break;
+      case KP: if(front) V<TP>(k, v).removeFront(); else V<TP>(k, v).removeBack(); break;
+      case KQ: if(front) V<TQ>(k, v).removeFront(); else V<TQ>(k, v).removeBack(); break;
+      }
+    }
     else if(IS("newcap", 2) && (k == KA || k == KH || k == KS || k == KQ))
     {
       destroyVar(k, v);
